@@ -320,12 +320,22 @@ func checkCompromise(c *Ctx, cmp *ssa.Function) {
 		r     *ssa.Return
 	}
 	var rets []retc
+	guardDelegated := false
 	for _, r := range returnsOf(cmp) {
 		if len(r.Results) != 2 {
 			continue
 		}
 		e := tb.T(r.Results[1])
-		rets = append(rets, retc{!(e.Op == "const" && strings.HasPrefix(e.Name, "nil:")), pathCond(tb, cmp.Blocks[0], r.Block()), r})
+		isNil := e.Op == "const" && strings.HasPrefix(e.Name, "nil:")
+		// an error that is visibly made here (errors.New, fmt.Errorf, a package-level error value, a literal of
+		// an error type); the error result of another call may be nil or not: that return decides nothing here
+		isMade := e.isCall("errors.New") || e.isCall("fmt.Errorf") || e.Op == "global" || e.Op == "alloc" || (e.Op == "conv" || e.Op == "typeassert")
+		if e.Op == "call" && !isMade || e.Op == "extract" || e.Op == "phi" || e.Op == "anyof" {
+			c.undecided("GUARD", "error iff cutOff<0 or cutOff>1", r.Pos(), "a return hands on the error of another call ("+short(e.String())+"); whether it is nil for a given cutOff is decided there")
+			guardDelegated = true
+			continue
+		}
+		rets = append(rets, retc{!isNil, pathCond(tb, cmp.Blocks[0], r.Block()), r})
 	}
 	stG, whyG := holds, ""
 	for _, x := range samples {
@@ -362,6 +372,11 @@ func checkCompromise(c *Ctx, cmp *ssa.Function) {
 	}
 	if len(rets) == 0 {
 		stG, whyG = unknown, "no (table, error) returns found"
+	}
+	if guardDelegated && !(stG == broken && !strings.Contains(whyG, "no error return")) {
+		// already reported as undecided at the delegating return; "no error return is taken" cannot be said
+		// while some return hands on another call's error
+		stG, whyG = unknown, "some returns hand on the error of another call"
 	}
 	c.judge(stG, "GUARD", "error iff cutOff<0 or cutOff>1", cmp.Pos(), "decided for cutOff in {-1, -0.0001, -0.00001, 0, 0.0001, 0.5, 0.9999, 1, 1.00001, 1.0001, 2}: an error return is taken exactly outside [0,1]", whyG)
 	c.Sites += len(samples)
